@@ -449,7 +449,9 @@ func (t *tbl) sortInterface(ip *absint.Interp, v absint.Value) absint.Value {
 
 func (t *tbl) TypeTest(ip *absint.Interp, v absint.Value, T types.Type) (bool, bool) {
 	if t.typeTestC != nil {
-		return t.typeTestC(ip, v, T)
+		if ok, known := t.typeTestC(ip, v, T); known {
+			return ok, known
+		}
 	}
 	if t.typeTest != nil {
 		if ok, known := t.typeTest(v, T); known {
@@ -473,6 +475,17 @@ func (t *tbl) TypeTest(ip *absint.Interp, v absint.Value, T types.Type) (bool, b
 			return types.Identical(dyn, T), true
 		}
 	}
+	// a capability no table knows about (an interface introduced after the tables were written), asked of one of the
+	// table's own objects: both answers are possible, one per object and run
+	if tok, isT := v.(*absint.Tok); isT && types.IsInterface(T) {
+		if it, ok := T.Underlying().(*types.Interface); ok && it.NumMethods() > 0 {
+			key := "cap:" + T.String()
+			if tok.Attr[key] == nil {
+				tok.Attr[key] = absint.Bool(ip.Choose(2, tok.ID+" implements "+T.String()) == 1)
+			}
+			return tok.Attr[key] == absint.Value(absint.Bool(true)), true
+		}
+	}
 	// literals carry their basic type
 	if b, isB := T.Underlying().(*types.Basic); isB {
 		switch v.(type) {
@@ -489,9 +502,69 @@ func (t *tbl) TypeTest(ip *absint.Interp, v absint.Value, T types.Type) (bool, b
 
 func (t *tbl) Field(ip *absint.Interp, obj *absint.Tok, name string, typ types.Type) absint.Value {
 	if t.field != nil {
-		return t.field(ip, obj, name, typ)
+		if v := t.field(ip, obj, name, typ); v != nil {
+			return v
+		}
+	}
+	// a map field the table says nothing about, of a type whose every allocation site makes that map (or copies it
+	// from another object of the type): the object is as freshly built - the map exists and is empty
+	if _, isMap := typ.Underlying().(*types.Map); isMap && ip.FieldOwner != nil {
+		if n := core.NamedOf(ip.FieldOwner); n != nil && alwaysMade(t.c, n, name) {
+			return &absint.MapVal{M: map[string]absint.Value{}}
+		}
 	}
 	return nil
+}
+
+// alwaysMade: every composite literal / allocation of T in scope gives the map field a made map (or the same field of
+// another T), and nothing else stores into it.
+func alwaysMade(c *core.Ctx, T *types.Named, field string) bool {
+	key := "always-made:" + T.String() + "." + field
+	if v, ok := c.Memo.Load(key); ok {
+		return v.(bool)
+	}
+	res := func() bool {
+		stores, _ := c.FieldAccesses(T, field)
+		if len(stores) == 0 {
+			return false
+		}
+		inited := map[ssa.Value]bool{}
+		for _, st := range stores {
+			base := core.Norm(st.Addr.X)
+			if _, fresh := base.(*ssa.Alloc); !fresh {
+				return false
+			}
+			switch v := st.Store.Val.(type) {
+			case *ssa.MakeMap:
+			case *ssa.UnOp:
+				if _, isLoad := core.IsFieldLoad(v, T, field); !isLoad {
+					return false
+				}
+			default:
+				return false
+			}
+			inited[base] = true
+		}
+		// every allocation of T in scope is one of those
+		for _, fn := range c.Scope {
+			for _, b := range fn.Blocks {
+				for _, in := range b.Instrs {
+					al, ok := in.(*ssa.Alloc)
+					if !ok {
+						continue
+					}
+					if core.NamedOf(al.Type()) == T && core.StructOf(al.Type().Underlying().(*types.Pointer).Elem()) != nil && !inited[al] {
+						if _, isPtrToT := al.Type().Underlying().(*types.Pointer).Elem().(*types.Named); isPtrToT {
+							return false
+						}
+					}
+				}
+			}
+		}
+		return true
+	}()
+	c.Memo.Store(key, res)
+	return res
 }
 
 func (t *tbl) Global(ip *absint.Interp, g *ssa.Global) absint.Value {
